@@ -286,9 +286,10 @@ theorem js_keep_var_names_scope (c : Cfg) (sc : ScopeIn) :
 
 /-- JS `Version` below 2020 in the C01 model of the rewriter: with the gate closed (`v20 = false`) the node rewriter
     of `minifyExpr` (`optimizeCondExpr` with all its rewrites — `c?x:y → c||y`, call merging, boolean bodies, De Morgan,
-    nested and comma conditionals — and `optimizeUnaryExpr`) maps an expression without `??`/`??=` to one without:
-    every expression, every precedence context, guarded or not.  (`?.`: the optional-chaining rewrite is the
-    `unmodelled` branch of `toNullish`, reachable only with `v20 = true`.) -/
+    nested and comma conditionals — and `optimizeUnaryExpr`) maps an expression without ES2020 syntax (`nn`: no `??`,
+    no `??=`, no optional chain `a?.b` = `E.opt`) to one without: every expression, every precedence context, guarded
+    or not.  Both producers — `a==null?b:a → a??b` and `a==null?undefined:a.b.c → a?.b.c` — sit in `toNullish`, which
+    is consulted only when `v20` holds. -/
 theorem js_version_no_new_nullish (g : Bool) (e : Verif.Spec.JsSyntax.E) (p : Nat) (r : Verif.Spec.JsSyntax.E)
     (he : Verif.Proofs.C16JsVersion.nn e = true) (h : Verif.Model.JsPrint.optNode g false e p = some r) :
     Verif.Proofs.C16JsVersion.nn r = true :=
@@ -301,13 +302,16 @@ theorem js_version_no_new_nullish_cond (g : Bool) (c x y : Verif.Spec.JsSyntax.E
     Verif.Proofs.C16JsVersion.nn r = true :=
   Verif.Proofs.C16JsVersion.nn_optCond g c x y p r hc hx hy h
 
-/-- non-vacuity: `a==null?b:a` has no `??`; with the gate open the rewrite produces one, with the gate closed the
-    conditional stays -/
+/-- non-vacuity: `a==null?b:a` and `a==null?undefined:a.b` use no ES2020 syntax; with the gate open the rewrites
+    produce `a??b` resp. `a?.b`, with the gate closed the conditionals stay -/
 example :
     let c := Verif.Spec.JsSyntax.E.bin .eq (.var "a") (.lit .null)
     Verif.Proofs.C16JsVersion.nn (.cond c (.var "b") (.var "a")) = true ∧
     (Verif.Model.JsOpt.optCond false true c (.var "b") (.var "a") 0).map Verif.Proofs.C16JsVersion.nn = some false ∧
-    (Verif.Model.JsOpt.optCond false false c (.var "b") (.var "a") 0).map Verif.Proofs.C16JsVersion.nn = some true := by
+    (Verif.Model.JsOpt.optCond false false c (.var "b") (.var "a") 0).map Verif.Proofs.C16JsVersion.nn = some true ∧
+    Verif.Proofs.C16JsVersion.nn (.cond c (.var "undefined") (.dot (.var "a") "b")) = true ∧
+    (Verif.Model.JsOpt.optCond false true c (.var "undefined") (.dot (.var "a") "b") 0).map Verif.Proofs.C16JsVersion.nn = some false ∧
+    (Verif.Model.JsOpt.optCond false false c (.var "undefined") (.dot (.var "a") "b") 0).map Verif.Proofs.C16JsVersion.nn = some true := by
   decide +kernel
 
 end Js
